@@ -28,7 +28,7 @@ def build(tier, seed):
                     hn = 'spec_%s_%s_c%d' % (tn, kn, ch)
                     gen.append('#[kani::proof] #[kani::unwind(8)] fn %s() { spec_step(DeriveTrait::%s, %d, %d) }' % (hn, t, tag, ch))
                     quick = kn in QUICK and ch == childs[-1] and (t in ('Default', 'Hash', 'PartialEqOrPartialOrd') or kn in ('Comp', 'Array', 'Function'))
-                    hs.append(H(hn, path='derive::spec_proofs::' + hn, timeout=900, weight=2 if kn == 'Comp' else 1, tier='quick' if quick else 'thorough',
+                    hs.append(H(hn, path='derive::spec_proofs::' + hn, timeout=900, weight=2, tier='quick' if quick else 'thorough',
                                 may_unsat=('cannot derive', 'can derive'),
                                 desc='derive(%s) rule for TypeKind::%s (child 1 = %s) == documented specification, one step from an arbitrary pre-state' % (t, kn, ['Int', '', '', 'Function'][ch]),
                                 sample={'trait': t, 'X_kind': kn, 'pre_state': 'arbitrary'}))
